@@ -54,6 +54,39 @@ def build_simple(g):
         G.add_edges_from((lab(u), lab(v)) for u, v in g['edges'])
         G.name = 'nx simple graph (labels with gaps)'
         return G
+    if kind in ('cnfgen-batch', 'cnfgen-batch-iter'):
+        # same graph inserted in one call, the pairs in a shuffled order and with either endpoint first;
+        # '-iter': the batch is a one-shot iterator, not a list
+        r = _rng(g)
+        es = [tuple(e) if r.random() < 0.5 else (e[1], e[0]) for e in g['edges']]
+        r.shuffle(es)
+        G = Graph(g['n'])
+        G.add_edges_from(es if kind == 'cnfgen-batch' else (p for p in es))
+        return G
+    if kind == 'cnfgen-readd':
+        # same graph after every third edge was removed (named in either orientation) and put back the other way round
+        r = _rng(g)
+        G = Graph(g['n'])
+        for u, v in g['edges']:
+            G.add_edge(u, v)
+        for i, (u, v) in enumerate(g['edges']):
+            if i % 3 == 0:
+                a, b = (u, v) if r.random() < 0.5 else (v, u)
+                G.remove_edge(a, b)
+                G.remove_edge(a, b)
+                G.add_edge(b, a)
+        return G
+    if kind == 'networkx-shuffled':
+        r = _rng(g)
+        nodes = list(range(1, g['n'] + 1))
+        r.shuffle(nodes)
+        es = [tuple(e) if r.random() < 0.5 else (e[1], e[0]) for e in g['edges']]
+        r.shuffle(es)
+        G = networkx.Graph()
+        G.add_nodes_from(nodes)
+        G.add_edges_from(es)
+        G.name = 'nx simple graph (shuffled insertion)'
+        return G
     if kind == 'cnfgen-rejected':
         # same graph on an object that has seen refused calls: illegal single edges and a batch refused half way
         n = g['n']
@@ -71,6 +104,13 @@ def build_simple(g):
     for u, v in g['edges']:
         G.add_edge(u, v)
     return G
+
+
+def _rng(g):
+    """a private generator that depends on the graph description only"""
+    import random
+    es = g.get('edges', [])
+    return random.Random(len(es) * 7919 + sum((i + 1) * (3 * u + 5 * v) for i, (u, v) in enumerate(es)) + 31 * g.get('n', g.get('L', 0)))
 
 
 def _refused(fn, *args):
@@ -117,7 +157,36 @@ def build_bipartite(g):
         G.add_edges_from((20 * v - 4, 20 * u + 3) if (u + v) % 2 else (20 * u + 3, 20 * v - 4) for u, v in g['edges'])
         G.name = 'nx bipartite graph (labels with gaps)'
         return G
+    if kind == 'cnfgen-complete-class' and len(g['edges']) == L * R:
+        from cnfgen.graphs import CompleteBipartiteGraph
+        return CompleteBipartiteGraph(L, R)          # the class the 'complete L R' construction uses (it stores no edges)
+    if kind == 'networkx-shuffled':
+        r = _rng(g)
+        nodes = [('l', i) for i in range(1, L + 1)] + [('r', i) for i in range(1, R + 1)]
+        order = {}
+        # the numbering inside a side follows insertion: keep each side in order, interleave the two sides at random
+        li, ri = 1, 1
+        G = networkx.Graph()
+        while li <= L or ri <= R:
+            if ri > R or (li <= L and r.random() < 0.5):
+                G.add_node('left-{:03d}'.format(li), bipartite=0)
+                li += 1
+            else:
+                G.add_node('right-{:03d}'.format(ri), bipartite=1)
+                ri += 1
+        es = [('left-{:03d}'.format(u), 'right-{:03d}'.format(v)) for u, v in g['edges']]
+        es = [e if r.random() < 0.5 else (e[1], e[0]) for e in es]
+        r.shuffle(es)
+        G.add_edges_from(es)
+        G.name = 'nx bipartite graph (shuffled insertion)'
+        return G
     B = BipartiteGraph(L, R)
+    if kind == 'cnfgen-batch':
+        r = _rng(g)
+        es = [tuple(e) for e in g['edges']]
+        r.shuffle(es)
+        B.add_edges_from(p for p in es)
+        return B
     if kind == 'cnfgen-rejected':
         es = [tuple(e) for e in g['edges']]
         for u, v in ((0, 1), (L + 1, 1), (1, R + 1), (1, 0), (-1, 1)):
@@ -168,7 +237,24 @@ def build_digraph(g):
         G.add_edges_from((lab(u), lab(v)) for u, v in g['edges'])
         G.name = 'nx digraph (labels with gaps)'
         return G
+    if g.get('as') == 'networkx-shuffled':
+        r = _rng(g)
+        nodes = list(range(1, g['n'] + 1))
+        r.shuffle(nodes)
+        es = [tuple(e) for e in g['edges']]
+        r.shuffle(es)
+        G = networkx.DiGraph()
+        G.add_nodes_from(nodes)
+        G.add_edges_from(es)
+        G.name = 'nx digraph (shuffled insertion)'
+        return G
     D = DirectedGraph(g['n'])
+    if g.get('as') == 'cnfgen-batch':
+        r = _rng(g)
+        es = [tuple(e) for e in g['edges']]
+        r.shuffle(es)
+        D.add_edges_from(p for p in es)
+        return D
     if g.get('as') == 'cnfgen-rejected':
         n = g['n']
         es = [tuple(e) for e in g['edges']]
@@ -187,9 +273,11 @@ def build_digraph(g):
 
 
 # rotations used by the enumerated slices so that every way of handing over a graph meets every shape
-SIMPLE_ROT = ('networkx', 'cnfgen', 'cnfgen-grown', 'cnfgen', 'networkx-rev', 'networkx-gaps', 'cnfgen-rejected', 'cnfgen', 'networkx-digits')
-BIP_ROT = ('networkx', 'cnfgen', 'networkx-rl', 'cnfgen-inspected', 'cnfgen', 'networkx-gaps', 'cnfgen-rejected')
-DAG_ROT = ('networkx', 'cnfgen', 'networkx-rev', 'cnfgen-rejected', 'cnfgen', 'networkx-gaps', 'cnfgen')
+SIMPLE_ROT = ('networkx', 'cnfgen', 'cnfgen-grown', 'cnfgen-batch', 'networkx-rev', 'networkx-gaps', 'cnfgen-rejected', 'cnfgen', 'networkx-digits',
+              'cnfgen-batch-iter', 'networkx-shuffled', 'cnfgen-readd', 'cnfgen')
+BIP_ROT = ('networkx', 'cnfgen', 'networkx-rl', 'cnfgen-inspected', 'cnfgen-complete-class', 'networkx-gaps', 'cnfgen-rejected', 'cnfgen-batch',
+           'networkx-shuffled', 'cnfgen', 'cnfgen-complete-class')
+DAG_ROT = ('networkx', 'cnfgen', 'networkx-rev', 'cnfgen-rejected', 'cnfgen-batch', 'networkx-gaps', 'cnfgen', 'networkx-shuffled')
 
 
 # ---------------------------------------------------------------------------
@@ -245,14 +333,16 @@ def _edge_subset(draw, P, max_edges=None):
 
 
 @st.composite
-def simple_graphs(draw, nmin=0, nmax=7, max_edges=None, kinds=('cnfgen', 'networkx', 'networkx-rev', 'cnfgen-grown', 'networkx-gaps', 'networkx-digits', 'cnfgen-rejected')):
+def simple_graphs(draw, nmin=0, nmax=7, max_edges=None, kinds=('cnfgen', 'networkx', 'networkx-rev', 'cnfgen-grown', 'networkx-gaps', 'networkx-digits', 'cnfgen-rejected',
+                         'cnfgen-batch', 'cnfgen-batch-iter', 'networkx-shuffled', 'cnfgen-readd')):
     n = draw(st.integers(nmin, nmax))
     edges = _edge_subset(draw, all_pairs(n), max_edges)
     return {'n': n, 'edges': edges, 'as': draw(st.sampled_from(list(kinds)))}
 
 
 @st.composite
-def bipartite_graphs(draw, Lmin=0, Lmax=4, Rmin=0, Rmax=5, max_edges=None, kinds=('cnfgen', 'networkx', 'networkx-rl', 'cnfgen-inspected', 'networkx-gaps', 'cnfgen-rejected')):
+def bipartite_graphs(draw, Lmin=0, Lmax=4, Rmin=0, Rmax=5, max_edges=None, kinds=('cnfgen', 'networkx', 'networkx-rl', 'cnfgen-inspected', 'networkx-gaps', 'cnfgen-rejected', 'cnfgen-batch', 'networkx-shuffled',
+                            'cnfgen-complete-class')):
     L = draw(st.integers(Lmin, Lmax))
     R = draw(st.integers(Rmin, Rmax))
     P = [(u, v) for u in range(1, L + 1) for v in range(1, R + 1)]
@@ -261,12 +351,12 @@ def bipartite_graphs(draw, Lmin=0, Lmax=4, Rmin=0, Rmax=5, max_edges=None, kinds
 
 
 @st.composite
-def dags(draw, nmin=1, nmax=7, max_edges=None, kinds=('cnfgen', 'networkx', 'networkx-rev', 'networkx-gaps', 'cnfgen-rejected')):
+def dags(draw, nmin=1, nmax=7, max_edges=None, kinds=('cnfgen', 'networkx', 'networkx-rev', 'networkx-gaps', 'cnfgen-rejected', 'cnfgen-batch', 'networkx-shuffled')):
     return draw(simple_graphs(nmin=nmin, nmax=nmax, max_edges=max_edges, kinds=kinds))
 
 
 @st.composite
-def digraphs(draw, nmin=0, nmax=5, kinds=('cnfgen', 'networkx', 'networkx-gaps', 'cnfgen-rejected'), loops=False, max_edges=None):
+def digraphs(draw, nmin=0, nmax=5, kinds=('cnfgen', 'networkx', 'networkx-gaps', 'cnfgen-rejected', 'cnfgen-batch', 'networkx-shuffled'), loops=False, max_edges=None):
     n = draw(st.integers(nmin, nmax))
     P = [(u, v) for u in range(1, n + 1) for v in range(1, n + 1) if loops or u != v]
     edges = _edge_subset(draw, P, max_edges)
